@@ -6,6 +6,9 @@ import os
 V = os.path.dirname(os.path.dirname(os.path.abspath(__file__)))
 
 CHECKS = {
+    "C01": dict(cat="exploration", ref="§4 C01", tech="acceptance criterion taken from the TLA+ trace specification VMTrace.tla (ApiExit rule: documented outcome classes, idle registers) applied to generated source texts; TLC validates the recorded VM traces of the seed corpus",
+                text="Every generated source text is handed to RunString (sloppy), Compile(strict)+RunProgram, a function wrapper and eval; the run must return a value or an error of a documented kind (Exception, CompilerSyntaxError, CompilerReferenceError, InterruptedError, StackOverflowError), no Go panic and no 'Compiler bug'/'BUG'/'Internal bug' diagnostic may escape, and the Runtime's registers must be idle afterwards (the ApiExit / Idle rule of VMTrace.tla evaluated through the white-box accessor). Sources: all token sequences up to length 3 over a 71-token alphabet plus sampled longer ones, token-level mutations (delete, duplicate, swap, replace, insert, truncate, move) of a seed corpus covering the supported syntax plus generated MiniJS programs, nesting bombs to depth 200 and random byte strings. Workers run in child processes with an address-space limit and a journal, so a fatal runtime error is attributed to its input. The VM traces of the seed corpus are validated by TLC against VMTrace.tla.",
+                note="The specification supplies the acceptance criterion, not the inputs: inputs no generator produces are not covered (no coverage-guided fuzzing in this technique family). Trusts the Go driver harness/cmd/c01run."),
     "C10": dict(cat="model_checking", ref="§3.4, §4 C10", tech="TLA+ Promise.tla: exhaustive model check of the design (explore mode) + the same module as oracle (TLC evaluates generated promise programs; goja must produce the same event log)",
                 text="Promise.tla specifies promise records, resolving functions with their shared alreadyResolved latch, reaction lists, PromiseReactionJob / PromiseResolveThenableJob, the FIFO job queue drained before control returns to Go, then / finally (thenFinally / catchFinally closures) / all / allSettled / any / race with their element functions, and HostPromiseRejectionTracker. In explore mode TLC visits every state reachable with 4-5 script operations over 4-5 promises and checks SettledStable, NoReactionsWhenSettled, LatchMonotone, TrackOK (reject before handle, each once) and QueueEmptyAtReturn. In oracle mode TLC evaluates seeded random programs (resolve with values / promises / itself / five thenable shapes, handlers that return, throw, return promises or thenables or settle other promises, combinators, Go-side NewPromise resolvers called between runs) and goja must log the same handler calls with the same arguments in the same order, the same thenable calls and tracker notifications, an empty queue at every return to Go and the same final states.",
                 note="Trusts TLC, the printer lib/pmgen.py and the driver harness/cmd/pmrun. Async functions (await) are covered through the VM trace checks (C03/C15 scenarios), not by this module; jobs dropped by an interrupt are checked in C15."),
